@@ -1,5 +1,6 @@
 import Netpol.Sexp
 import Netpol.Model.AlgDriver
+import Netpol.Model.WorldDriver
 open Netpol
 
 def handle (line : String) : String :=
@@ -8,6 +9,7 @@ def handle (line : String) : String :=
   | some s =>
     match s.head? with
     | some "alg" => toString (AlgDriver.run s.args)
+    | some "wcase" => toString (WorldDriver.run s.args)
     | _ => "bad-op"
 
 partial def loop (hin hout : IO.FS.Stream) : IO Unit := do
